@@ -346,6 +346,20 @@ def fileText (seqName : Str) (fs : List Feature) : Option Str :=
   | none => none
   | some strs => some (join '\n' ((">Features ".toList ++ seqName) :: strs) ++ ['\n'])
 
+/-- a feature object: what `TblGene` computed plus its qualifier dictionary -/
+def Skel.toFeature (s : Skel) (q : Quals) : Feature := ⟨s.key, s.blocks, s.strand, s.si, s.ei, s.pseudo, q⟩
+
+/-- the features `collection_to_tbl` prints for the genes of one collection: per gene the objects `TblGene` yields
+    (each with its qualifier dictionary, supplied as data, in `TblGene` order), minus the mRNA objects in the
+    prokaryotic flavour -/
+def collectionFeatures (prok : Bool) (genome : Option Str) (table : Int) :
+    List (Gene × List Quals) → RT (List Feature)
+  | [] => pure []
+  | (g, qs) :: rest => do
+    let sk ← tblGene g genome table
+    let more ← collectionFeatures prok genome table rest
+    pure (flavourFilter prok (List.zipWith Skel.toFeature sk qs) ++ more)
+
 /-- the whole output of one `collection_to_tbl` call over several collections -/
 def filesText (colls : List (Str × List Feature)) : Option Str :=
   match colls.mapM (fun c => fileText c.1 c.2) with
